@@ -882,9 +882,13 @@ class IterativeSweeps(Sweep):
         .. cfg:configoptions :: IterativeSweeps
 
             min_sweeps : int
-                Minimum number of sweeps to perform.
+                Minimum number of sweeps to perform: convergence is only accepted once *more* than
+                `min_sweeps` sweeps have been performed.
             max_sweeps : int
-                Maximum number of sweeps to perform.
+                Limit for the number of sweeps. The criterion is checked before each iteration (of
+                `N_sweeps_check` sweeps) and stops the run once *more* than `max_sweeps` sweeps have been
+                performed, i.e. up to ``max_sweeps + N_sweeps_check`` sweeps are performed
+                (``max_sweeps + 1`` for ``N_sweeps_check=1``).
             max_hours : float
                 If the DMRG took longer (measured in wall-clock time),
                 'shelve' the simulation, i.e. stop and return with the flag
